@@ -68,6 +68,13 @@ func (e *evictorProxy) Done(pod *corev1.Pod) {
 	}
 }
 
+// cancel releases the slot held by AllowEvict when the eviction did not happen.
+func (e *evictorProxy) cancel(pod *corev1.Pod) {
+	if canceler, ok := e.evictionLimiter.(interface{ Cancel(pod *corev1.Pod) }); ok {
+		canceler.Cancel(pod)
+	}
+}
+
 func (e *evictorProxy) TotalEvicted() uint {
 	if e.evictionLimiter != nil {
 		return e.evictionLimiter.TotalEvicted()
@@ -107,6 +114,7 @@ func (e *evictorProxy) Evict(ctx context.Context, pod *corev1.Pod, opts framewor
 	} else {
 		succeeded := e.handle.evictPlugins[0].Evict(ctx, pod, opts)
 		if !succeeded {
+			e.cancel(pod)
 			return false
 		}
 	}
